@@ -68,8 +68,18 @@ def make_cases(rng, tier):
     if tier != 'quick':
         add('part64', dh.base_cfg('part', S=2, W=1, classes=tuple(range(64))), [('float32', 'u8')], n, dvals=list(range(66)))
     add('tplb', dh.base_cfg('tplb', S=3, W=1, classes=(0, 1, 2)), both, n, dvals=[0, 1, 2, 7])
+    add('tplb-u8-full-scale', dh.base_cfg('tplb', S=2, W=1, classes=(0, 1)), [('float64', 'u8')], n, tmin=230, tmax=255, dvals=[0, 1])
+    cs[-1]['rep'] = 401          # every batch is presented 401 times (odd: the sums keep their low bits): per-batch sums of products beyond 2^24, all accumulators scale by 401
     add('tplb-offset-f32traces', dh.base_cfg('tplb', S=2, W=1, classes=(1, 0)), [('float64', 'f32')], n, tmin=1, tmax=7, offset=4096, dvals=[0, 1, 5])
     return cs
+
+
+def _scaled(x, k):
+    if isinstance(x, dict):
+        return {a: _scaled(b, k) for a, b in x.items()}
+    if isinstance(x, list):
+        return [_scaled(b, k) for b in x]
+    return x * k
 
 
 def generate(chk, cases, maxb):
@@ -124,9 +134,12 @@ def run(chk):
                 numba.set_num_threads(nt)
                 ad = Adapter(case['c'], prec, pres)
                 pos, bad = 0, None
+                rep = case.get('rep', 1)
                 for step, e in enumerate(h):
-                    rows = case['rows'][pos:pos + e['k']]
+                    rows = case['rows'][pos:pos + e['k']] * rep
                     pos += e['k']
+                    if rep > 1:
+                        e = dict(e, acc=_scaled(e['acc'], rep))
                     P._VERIF_FORCE_KERNEL[:] = [e['kern'] - 1]
                     del P._VERIF_KERNEL_LOG[:]
                     ad.update(rows)
@@ -217,10 +230,17 @@ def replay(chk, path):
     numba.set_num_threads(min(rp['threads'], numba.config.NUMBA_NUM_THREADS))
     ad = Adapter(rp['case']['c'], rp['precision'], rp['presentation'])
     pos = 0
+    rep = rp['case'].get('rep', 1)
     for e in rp['history']:
         P._VERIF_FORCE_KERNEL[:] = [e['kern'] - 1]
-        ad.update(rp['case']['rows'][pos:pos + e['k']])
+        ad.update(rp['case']['rows'][pos:pos + e['k']] * rep)
         pos += e['k']
+        if rep > 1:
+            e = dict(e, acc=_scaled(e['acc'], rep))
+        if ad.input_modified:
+            print('the caller\'s array was modified')
+            print(f'VIOLATION property=C11 replay={path}')
+            return 1
         try:
             proj = ad.projection()
         except ValueError as ex:
